@@ -108,6 +108,8 @@ impl Prop for C18 {
         conv.hs = Handshake {
             kind: HsKind::V41 { caps: CAP_LONG_PASSWORD | CAP_PROTOCOL_41 | CAP_SSL | CAP_SECURE_CONNECTION | CAP_MULTI_RESULTS, max_packet: 1 << 24, charset: 0x21, user, tail: vec![0] },
             seq: 2,
+            user_pad: 0,
+            tail_pad: 0,
         };
         conv.lockstep = g.chance(1, 3);
         let (s, _) = gen_tls_schedule(g);
